@@ -1,13 +1,14 @@
 #!/bin/sh
 # usage: tools/seed_regress.sh [ID-prefix]   -- re-runs every kept seeded change against its property's quick check
 # (one scratch copy per seed under /dev/shm, removed afterwards); prints one line per seed: caught / MISSED
-cd /verif
+cd "$(dirname "$0")/.." || exit 2
+HERE=$(pwd)
 for d in seeded/${1:-C}*; do
   name=$(basename "$d"); id=${name%%-*}
   if grep -q "obsolete on the repaired tree" "$d/meta.json"; then echo "$name obsolete (upstream repair made the seeded edit a no-op)"; continue; fi
   D=$(mktemp -d /dev/shm/verif-regress-XXXXXX)
   git -C /repo archive HEAD | tar -x -C "$D"
-  ( cd "$D" && { git apply --unsafe-paths "/verif/$d/patch.diff" 2>/dev/null || patch -p1 -s < "/verif/$d/patch.diff"; } ) >/dev/null 2>&1 || { echo "$name PATCH-DOES-NOT-APPLY"; rm -rf "$D"; continue; }
+  ( cd "$D" && { git apply --unsafe-paths "$HERE/$d/patch.diff" 2>/dev/null || patch -p1 -s < "$HERE/$d/patch.diff"; } ) >/dev/null 2>&1 || { echo "$name PATCH-DOES-NOT-APPLY"; rm -rf "$D"; continue; }
   out=$(VERIF_REPO="$D" ./check "$id" --no-shrink 2>&1)
   n=$(printf '%s\n' "$out" | grep -c '^VIOLATION')
   h=$(printf '%s\n' "$out" | grep -c 'HARNESS')
